@@ -70,6 +70,7 @@ def register(name, fn):
 register('gen_quantity', verus_unit('gen_quantity', gen_verus.gen_quantity))
 register('gen_hasref', verus_unit('gen_hasref', gen_verus.gen_hasref))
 register('lemmas_m1_f64', verus_unit('lemmas_m1_f64', gen_verus.gen_m1_f64))
+register('lemmas_m1_dec', verus_unit('lemmas_m1_dec', gen_verus.gen_m1_dec))
 
 
 def run_units(names, prop, tier, seed):
@@ -224,6 +225,7 @@ def kani_crate(cfg):
             if src == 'catalogue':
                 gen_kani.gen_si(g)
                 gen_kani.gen_conv(g)
+                gen_kani.gen_m0(g)
         except gen_verus.LostAnchor as e:
             raise Undecided(f'lost anchor while generating kani crate {cfg}: {e}')
         text = g.render()
@@ -240,5 +242,5 @@ def kani_unit(cfg, family):
 
 
 for cfg in KANI_CFG:
-    for fam in ('reg', 'sym', 'symc', 'tab', 'ufs', 'fit', 'total', 'totald', 'noref', 'si', 'si2', 'conv'):
+    for fam in ('reg', 'sym', 'symc', 'm0', 'tab', 'ufs', 'fit', 'total', 'totald', 'noref', 'si', 'si2', 'conv'):
         register(f'kani_{cfg}:{fam}', kani_unit(cfg, fam))
